@@ -88,7 +88,7 @@ class Obs:
     __slots__ = ("res", "vk", "root", "rows", "choices", "trace", "cost", "scn")
 
 
-def execute(scn, prefix=(), keep_root=False, tracer=None, strict=False, name="proj"):
+def execute(scn, prefix=(), keep_root=False, tracer=None, strict=False, name="proj", allow_unconsumed=False, timeout=None):
     files = scn["files"]
     root = driver.fresh_project(files, name=name, config=scn.get("config", ""),
                                 index_rows=[tuple(r) for r in scn["index_rows"]] if scn.get("index_rows") is not None else None,
@@ -99,10 +99,10 @@ def execute(scn, prefix=(), keep_root=False, tracer=None, strict=False, name="pr
     git = git_from_json(scn.get("git"))
     clock = driver.Clock(scn.get("clock", 1_700_000_000.0))
     cwd = os.path.join(root, scn.get("cwd", "."))
-    res = driver.run_cli(scn["argv"], cwd, vk=vk, git=git, clock=clock, tracer=tracer)
+    res = driver.run_cli(scn["argv"], cwd, vk=vk, git=git, clock=clock, tracer=tracer, timeout=timeout)
     if isinstance(res.exc, (vkmod.HarnessError,)) and not isinstance(res.exc, (vkmod.Deadlock, vkmod.Horizon)):
         raise res.exc
-    if not ch.fully_consumed():
+    if not ch.fully_consumed() and not allow_unconsumed:
         raise vkmod.HarnessError("replay divergence: %d of %d recorded choices were never asked for"
                                  % (len(ch.prefix) - ch.i, len(ch.prefix)))
     o = Obs()
